@@ -86,12 +86,29 @@ class set:
     def __enter__(self):
         return self.config
 
+    def __exit__(self, exc_type, exc_value, traceback):
+        for op, path, old in reversed(self._record):
+            d = self.config
+            if op == "replace":
+                for key in path[:-1]:
+                    d = d.setdefault(key, {})
+                d[path[-1]] = old
+            else:  # insert
+                for key in path[:-1]:
+                    try:
+                        d = d[key]
+                    except KeyError:
+                        break
+                else:
+                    d.pop(path[-1], None)
+
     def _assign(
         self,
         keys: Sequence[str],
         value: Any,
         d: dict,
         path: tuple[str, ...] = (),
+        record: bool = True,
     ) -> None:
         """Assign value into a nested configuration dictionary
 
@@ -111,11 +128,20 @@ class set:
         path = path + (key,)
 
         if len(keys) == 1:
+            if record:
+                if key in d:
+                    self._record.append(("replace", path, d[key]))
+                else:
+                    self._record.append(("insert", path, None))
             d[key] = value
         else:
             if key not in d:
+                if record:
+                    self._record.append(("insert", path, None))
                 d[key] = {}
-            self._assign(keys[1:], value, d[key], path)
+                # nothing below a freshly inserted section needs to be recorded
+                record = False
+            self._assign(keys[1:], value, d[key], path, record=record)
 
 
 def refresh(config: dict = config, defaults: list[Mapping] = defaults, **kwargs) -> None:
